@@ -329,6 +329,9 @@ RULE += _R6["C09"]
 from vmc.tables import _ROUND7 as _R7  # noqa: E402
 
 RULE += _R7["C09"]
+from vmc.tables import _ROUND8 as _R8  # noqa: E402
+
+RULE += _R8["C09"]
 
 
 
